@@ -25,6 +25,7 @@ def main():
     ck.outside.append('id lengths not listed (ENTL and the length test are the only length-dependent code)')
     ck.assumptions += ['sm3 hash object = uninterpreted digest of the concatenation of written slices (C04 shows the real object computes SM3 of that concatenation)']
     eng = proto_engine(prog)
+    eng.deadline = time.time() + (240 if not thorough else 1800)     # normally 3 s; a changed tree can fork on data-dependent lengths
     fails = {}
     t0 = time.time()
     nruns = 0
@@ -133,23 +134,33 @@ def main():
                 wfail.append((ML, r))
     secs = time.time() - t0
     ck.absorb(eng)
+    if getattr(eng, 'budget_hit', None):
+        ck.record('za[time-budget]', 'inconclusive', 'symbolic exploration stopped at its time budget (%d decision prefixes left)' % eng.budget_hit)
 
     # ------------------------------------------------------------ verdicts and replays
+    def special_pubs():
+        """coordinate pairs for the replays: a real point and byte strings with leading zero bytes (ZA hashes the 32-byte
+        encodings as given, so a coordinate whose integer value is short must still contribute 32 bytes)"""
+        pt = ref.mul(ck.rng.randrange(1, N - 1))
+        return [pt, (ck.rng.getrandbits(248), ck.rng.getrandbits(256)), (ck.rng.getrandbits(256), ck.rng.getrandbits(240)), (1, 0)]
+
     def replay_za(L):
         idv = [ck.rng.randrange(256) for _ in range(L)]
-        pub = ref.mul(ck.rng.randrange(1, N - 1))
-        if L >= 8192:
-            body = 'if err == nil { t.Fatalf("id of %d bytes accepted, za=%%x", za) }' % L
-        else:
-            want = ref.za(bytes(idv), pub[0], pub[1])
-            body = 'if err != nil || !bytes.Equal(za, %s) { t.Fatalf("ZA differs from the standard: %%x err=%%v", za, err) }' % go_bytes(list(want))
+        stmts = []
+        for pub in special_pubs():
+            if L >= 8192:
+                stmts.append('if za, err := ZA(id, %s, %s); err == nil { t.Fatalf("id of %d bytes accepted, za=%%x", za) }' % (go_bytes(b32(pub[0])), go_bytes(b32(pub[1])), L))
+            else:
+                want = ref.za(bytes(idv), pub[0], pub[1])
+                stmts.append('if za, err := ZA(id, %s, %s); err != nil || !bytes.Equal(za, %s) { t.Fatalf("ZA differs from the standard for x=%064x y=%064x: %%x err=%%v", za, err) }' % (
+                    go_bytes(b32(pub[0])), go_bytes(b32(pub[1])), go_bytes(list(want)), pub[0], pub[1]))
         src = '''package sm2
 import ("testing"; "bytes")
 var _ = bytes.Equal
 func TestVerifReplay(t *testing.T) {
-	za, err := ZA(%s, %s, %s)
+	id := %s
 	%s
-}''' % (go_bytes(idv), go_bytes(b32(pub[0])), go_bytes(b32(pub[1])), body)
+}''' % (go_bytes(idv), '\n\t'.join(stmts))
         return ck.go_test('sm2', src, name='za_%d' % L)
 
     for key, fl in sorted(fails.items()):
@@ -218,10 +229,11 @@ func TestVerifReplay(t *testing.T) {
 
     # concrete validation on the real build (standard vector + random)
     rows = []
-    for i in range(4):
-        L = [16, 0, 55, 8191][i]
+    sp = special_pubs()
+    for i in range(7):
+        L = [16, 0, 55, 8191, 16, 32, 100][i]
         idv = [ck.rng.randrange(256) for _ in range(L)]
-        pub = ref.mul(ck.rng.randrange(1, N - 1))
+        pub = ref.mul(ck.rng.randrange(1, N - 1)) if i < 4 else sp[i - 3]
         rows.append('{%s,%s,%s,%s},' % (go_bytes(idv), go_bytes(b32(pub[0])), go_bytes(b32(pub[1])), go_bytes(list(ref.za(bytes(idv), pub[0], pub[1])))))
     src = '''package sm2
 import ("testing"; "bytes")
@@ -236,7 +248,7 @@ func TestVerifReplay(t *testing.T) {
 }''' % '\n'.join(rows)
     ok, out, path = ck.go_test('sm2', src, name='validate')
     if ok is True:
-        ck.validated += 4
+        ck.validated += 7
     elif ok is False:
         ck.record('reference_za', 'violated', 'ZA on the real build differs from the reference (real SM3 + real ZA): ' + (out or '')[-200:].replace('\n', ' '))
         ck.violation('ZA.reference', 'ZA differs from the reference on concrete ids', path)
